@@ -1095,3 +1095,4 @@ M('c01-progress-wrapper-seek-drops-whence', 'C01', "        return self._stream.
 # ------------------------------------------------------------------------------------------------ option forwarding in wrappers
 M('c09-wrapper-drops-no-holes', 'C09', "            stream_list=stream_list,\n            compress=compress,\n            no_holes=no_holes,", "            stream_list=stream_list,\n            compress=compress,", 'C09.R7')
 M('c05-wrapper-drops-do-commit', 'C05', "            do_fsync=do_fsync,\n            do_commit=do_commit,\n        )\n\n    def loosen_object", "            do_fsync=do_fsync,\n        )\n\n    def loosen_object", 'C05.R7')
+M('c02-valid-hashkey-fixed-length', 'C02', "        if not all(char in '0123456789abcdef' for char in hashkey):\n            return False\n        return True", "        if len(hashkey) != 64 or not all(char in '0123456789abcdef' for char in hashkey):\n            return False\n        return True", 'C02.R3')
